@@ -20,6 +20,7 @@ THEOREMS = [
     "KrroodVerif.SG.C20_current_no_pins_no_survivors",
     "KrroodVerif.SG.C20_cex_query_cache",
     "KrroodVerif.SG.C20_cex_index_entries",
+    "KrroodVerif.SG.C20_role_witness",
 ]
 MODEL_FUNCTION = ("SG.step / Heap.collect / Heap.roots / SG.sweep / SG.removeNode (Model/SymbolGraph.lean), looped by "
                   "Drive/C20.lean under the LIFO allocator")
@@ -36,9 +37,9 @@ ASSUMPTIONS = [
     "_instance_index is compared only where it does not depend on which id() CPython recycles ('?' otherwise)",
     "sizes are read from the structures the property names (_instance_index, _class_to_wrapped_instances, "
     "_relation_index, _id_expression_map_, RWXNode._graph); a structure that no longer exists counts as empty",
-    "role takers: the inference of Chair.head_of through the role taker is NOT in the Lean model; loops with roles "
-    "are query-free, so what they record cannot influence the observation (nothing is pinned: everything dies, "
-    "C20_no_pins_no_survivors) - the model side runs them with the role assertions left out",
+    "role takers: Role[Emp] instances hold their role taker in a plain field (a strong reference, Op.newrole) and the "
+    "inference of Chair.head_of / Chair.manages through the role taker is part of the proven model (SG.addFact); loops "
+    "with roles are query-free",
     "the window between a death and the next sweep is kept open, transitive assertions next to dead, unswept "
     "instances included (they raised before the repair of F-C14-2)",
 ]
@@ -125,6 +126,23 @@ def _families():
                          ["qdrain", 1], ["drop", 1], ["query", c]], "deferred"))
             out.append(([["new", 0, c], ["qstart", 1, c], ["qstart", 2, 0], ["drop", 0], ["qdrain", 2], ["new", 1, c],
                          ["qdrain", 1]], "deferred"))
+        # evaluations that END ABNORMALLY (the(...) over zero / several instances: the exception is handled) or are
+        # ABANDONED after the first result, followed by ordinary create / relate / query / discard rounds: whatever
+        # an evaluation switches off while it runs must be switched on again however it ends
+        for c in (1, 2, 7):
+            for bad in (["qfail", c], ["qabandon", c], ["qfail", 0], ["qabandon", 0]):
+                out.append(([["new", 0, c], ["new", 1, c], bad, ["new", 2, c], ["query", c]], "abnormal-eval"))
+                out.append(([bad, ["new", 0, c], ["new", 1, c], ["query", 0]], "abnormal-eval"))
+                out.append(([["new", 0, c], ["new", 1, c], ["drop", 0], bad, ["churn", 10, 3, c], ["query", c]],
+                            "abnormal-eval"))
+            out.append(([["new", 0, c], ["new", 1, c], ["qabandon", c], ["qfail", c], ["drop", 1], ["new", 2, c]],
+                        "abnormal-eval"))
+        out.append(([["new", 0, 2], ["new", 1, 1], ["new", 2, 1], ["set", 0, 0, 1], ["qfail", 1], ["set", 3, 1, 2],
+                     ["query", 2]], "abnormal-eval"))
+        out.append(([["pre", ["new", 900, 1], ["new", 901, 1], ["qfail", 1]], ["new", 0, 2], ["new", 1, 2],
+                     ["new", 2, 1], ["set", 0, 0, 2], ["query", 2]], "abnormal-eval"))
+        out.append(([["pre", ["new", 900, 1], ["new", 901, 1], ["qabandon", 1]], ["new", 0, 2], ["new", 1, 2],
+                     ["new", 2, 1], ["set", 1, 0, 2], ["query", 1]], "abnormal-eval"))
         yield from ((n, ops, tag) for ops, tag in out)
         out = []
 
@@ -145,6 +163,9 @@ def generate(rng, tier, n):
             b = rng.randint(a, len(ops))
             ops.insert(b, ["qdrain", 77])
             ops.insert(a, ["qstart", 77, rng.choice([0, 1, 2, 2, 4])])
+        if rng.random() < 0.25:
+            # an evaluation that ends abnormally / is abandoned somewhere in the body
+            ops.insert(rng.randint(0, len(ops)), [rng.choice(["qfail", "qabandon"]), rng.choice([0, 1, 2, 2])])
         # Loop bodies keep the window between a death and the next sweep open (ids and node indices are recycled in
         # it); a transitive assertion may meet a dead, unswept instance there (F-C14-2, repaired: it is left out).
         tags = ["random"]
@@ -156,6 +177,8 @@ def generate(rng, tier, n):
             tags.append("churn")
         if any(op[0] == "qstart" for op in ops):
             tags.append("deferred")
+        if any(op[0] in ("qfail", "qabandon") for op in ops):
+            tags.append("abnormal-eval")
         cases.append(_case(rng.choice([4, 5]), ops, tags, "random"))
     # long-lived roots, transients reached through flatten(root.knows) by queries over the root type
     for _ in range(n // 5):
@@ -220,7 +243,7 @@ def compare(a: str, b: str) -> bool:
 
 def nontrivial(case: Case, spec: str) -> bool:
     return ("(new" in case.line or "(churn" in case.line) and any(
-        k in case.line for k in ("(set", "(rel", "query", "evalq", "(head", "(churn", "(attach"))
+        k in case.line for k in ("(set", "(rel", "query", "evalq", "(head", "(churn", "(attach", "(qfail", "(qabandon"))
 
 
 def shrink(case: Case):
